@@ -189,14 +189,14 @@ EXTRA = {
     "C01": " (PRIM-IS-NUMPY) the NumPy backend's reshape / moveaxis / transpose are NumPy's own functions (registered by name from numpy, read by a small evaluator of the registration loops) or methods that return exactly np.<name>(their parameters): the trusted base of the layout rules is what it is assumed to be. (AXIS-AS-GIVEN) a layout function that re-binds its ordering parameter corrects it by the tensor order (ndim / len(shape)) only.",
     "C12": " (RANK-ON-DATA) an operator that ranks entries (sort / argsort) to find its threshold or support ranks its own input: the ranked array reaches the tensor parameter through re-arrangements, negation or absolute value only.",
     "C06": " (MASK-FORWARD) a driver that takes a `mask` hands (something computed from) it to the routine that computes its reported error (error_calc), never a constant or the default. (REPORT-PURE) the reported error has no data dependence on a penalty option (sparsity / ridge / regularisation coefficients) other than through the model. (SHORTCUT-PREMISE) every pass of HOOI's sweep stores singular vectors into its mode's factor (no skip before the store), which the norm shortcut of the reported error presupposes. (LAST-MODE, extended) after the guard that un-fixes the last mode the fixed-mode list is only copied or filtered, never re-computed element by element.",
-    "C13": " (START-FREE) admm with no constraint and an iteration budget >= 1: the returned primal has no data dependence on the start values x and dual_var on any branch-consistent path.",
+    "C13": " (START-FREE) admm with no constraint and an iteration budget >= 1: the returned primal has no data dependence on the start values x and dual_var on any branch-consistent path. (COMPLEMENT-IN-SYNC) the two complementary masks of active_set_nnls (passive set x > 0, active set x <= 0) are written together in every statement block that writes either; MUST-SOLVE reads the function with its module helpers inlined.",
     "C18": " (REAL-NARROWING) no component handed to a factorised-tensor constructor can be nothing but a real-valued reduction (norm / .real / .imag) of the data: complex input would get real-typed weights / factors. The mask parameter is modelled as the documented array of booleans (weakest array type; with a Python number it becomes a 64-bit array that promotes), options whose default is a Python number as weak Python numbers. A true division with an int64 array (arange) on either side is float64 whatever the other operand is.",
     "C19": " (FILL-COMPLETE) CP_PLSR.fit writes one column of every preallocated loading matrix per pass of its component loop, and that loop has no early exit of its own, so no component is left at its zero initial value. (TRANSFORM-DELEGATES) fit_transform of a regressor that also offers transform returns `.transform(<its own arguments>)` of the fitted object, not the model's own arrays.",
     "C02": " (INDEX-WIDTH) in sample_khatri_rao the mixed-radix accumulation of the sampled row index starts from an integer array with an explicit wide dtype, so the row index cannot inherit a narrow integer type from the caller's index arrays. (CONJ-AGREE) a tenalg routine implemented by both backends conjugates an operand in one implementation if and only if it does in the other.",
-    "C09": " (SVD-OF-UNFOLDING) by dimensional analysis every matrix handed to an SVD inside tensor_train / tensor_ring / partial_tucker has degree exactly 1 in the data on every branch (an unfolding, not its Gram matrix). (NO-RECAST) in tensor_train / tensor_ring / partial_tucker no value derived from an SVD is re-typed to the context or dtype of the data argument (the property quantifies over integer tensors, whose floating-point cores such a cast truncates). (SCALE-FREE-TEST) inside TT-SVD, TR-SVD and HOOI no order comparison sets a quantity carrying the data's unit against a fixed number (machine epsilon): which directions are kept must not depend on the scale of the input.",
+    "C09": " (SVD-OF-UNFOLDING) by dimensional analysis every matrix handed to an SVD inside tensor_train / tensor_ring / partial_tucker has degree exactly 1 in the data on every branch (an unfolding, not its Gram matrix). (NO-RECAST) in tensor_train / tensor_ring / partial_tucker no value derived from an SVD is re-typed to the context or dtype of the data argument (the property quantifies over integer tensors, whose floating-point cores such a cast truncates). (SCALE-FREE-TEST) inside TT-SVD, TR-SVD and HOOI no order comparison sets a quantity carrying the data's unit against a fixed number (machine epsilon): which directions are kept must not depend on the scale of the input. (EXACT-SWEEP-SVD) the SVD inside partial_tucker's sweep takes no method from a caller option: exactness at sufficient rank and the quasi-optimality bound rest on orthonormal factors from an exact SVD.",
     "C04": " (GUARD-EXACT) in cp_normalize / tucker_normalize / parafac2_normalise the scale that divides a factor and the scale absorbed into the weights / core are the same value or differ only by a guard where(<scale is exactly zero>, 1, scale); a threshold guard leaves a non-null column un-normalised while its norm is still absorbed.",
     "C05": " (BRANCH-AGREE) the transposed and the direct route of randomized_svd call the range finder and the reduced SVD with the same options (sketch size with oversampling, power iterations, seed, number of triplets). (DIV-GUARDED) in the SVD methods of SVD_FUNS and in make_svd_non_negative every division has a strictly positive denominator: by construction (clipped / floored at a positive constant or machine epsilon, square roots and reshapes of such) or because it sits under `if P > Q` with the denominator a factor of the product P of norms and Q >= 0; singular vectors and NNDSVD columns stay finite for exactly singular input and one-signed singular vectors (found and repaired: fix d4592a7). (SCALE-RETURNED) symeig_svd divides by the very singular values it returns. (REORTH-EACH-STEP) in randomized_range_finder's power iteration no product with A / A^H is applied to a sample that was not re-orthonormalised after the previous one, and the sample carried to the next pass comes out of qr (typestate over the inlined loop body).",
-    "C07": " (ACCEPT-EVALUATED) PARAFAC2's line-search step returns the model its error was evaluated on: between the evaluation and the return that hands back (model, error) no part of that model is written. (DERIVED-FRESH) in every iterative driver a local table derived element by element from the model list (cached Gram matrices, norms; plain copies are snapshots) is rebuilt over every position after the model list is re-bound as a whole (orthogonalisation, cp_normalize) and before it is read again.",
+    "C07": " (ACCEPT-EVALUATED) PARAFAC2's line-search step returns the model its error was evaluated on: between the evaluation and the return that hands back (model, error) no part of that model is written. (DERIVED-FRESH) in every iterative driver a local table derived element by element from the model list (cached Gram matrices, norms; plain copies are snapshots) is rebuilt over every position after the model list is re-bound as a whole (orthogonalisation, cp_normalize) and before it is read again. (EXACT-SWEEP-SVD) the SVD inside partial_tucker's sweep takes no method from a caller option (a selectable method includes the randomised, approximate one).",
     "C14": " (PURE-MOVE, extended) parafac's all-fixed shortcut reads fixed_modes before anything filters it. (INIT-AS-GIVEN) on the path initialize_cp / initialize_constrained_parafac / initialize_tucker take for a user-supplied decomposition, no factor is replaced by the output of a transforming routine (proximal operator, projection, SVD, random draw, clipping; absolute value outside the non-negative option) before it is returned. INIT-AS-GIVEN also covers PARAFAC2's initialize_decomposition.",
 }
 
